@@ -66,6 +66,8 @@ type c20Case struct {
 	Target  string      `json:"target,omitempty"`   // ewma/freeze: eta | speed | elapsed | avgspeed
 	Wrap    []string    `json:"wrap,omitempty"`
 	ViaBar  bool        `json:"via_bar,omitempty"`
+	Render  bool        `json:"render_between,omitempty"` // ewma: the decorator is drawn after every sample, not only at the end
+	Age     float64     `json:"age,omitempty"`            // ewma, avg_kind "age": decor.EwmaETA / decor.EwmaSpeed with this age
 	W       int         `json:"w,omitempty"`
 	C       int         `json:"c,omitempty"`
 }
@@ -255,8 +257,14 @@ func genC20(t *rapid.T) interface{} {
 		c.Total = c.Current
 	case "ewma":
 		c.Target = rapid.SampledFrom([]string{"eta", "speed"}).Draw(t, "target")
-		c.AvgKind = rapid.SampledFrom([]string{"record", "record", "median", "hybrid"}).Draw(t, "avgkind")
+		c.AvgKind = rapid.SampledFrom([]string{"record", "record", "median", "median", "hybrid", "age"}).Draw(t, "avgkind")
 		c.ViaBar = rapid.Bool().Draw(t, "viabar")
+		c.Render = rapid.Bool().Draw(t, "renderbetween")
+		if c.AvgKind == "age" {
+			// the library's own EWMA constructors: age 0 selects the default average
+			c.Age = rapid.SampledFrom([]float64{0, 0, 1, 2, 5, 10, 30, 100}).Draw(t, "age")
+			c.ViaBar = false
+		}
 		if c.AvgKind == "hybrid" {
 			c.ViaBar = true // a user-defined estimator that is also an AverageDecorator and a ShutdownListener
 		}
@@ -284,6 +292,11 @@ func genC20(t *rapid.T) interface{} {
 				s.Dur = rapid.Int64Range(0, int64(time.Hour)).Draw(t, "dbig")
 			default:
 				s.Dur = rapid.Int64Range(0, int64(50*time.Millisecond)).Draw(t, "d")
+			}
+			if c.AvgKind == "age" {
+				// progress in every sample, a few nanoseconds to a few seconds per item
+				s.N = rapid.Int64Range(1, 100).Draw(t, "agen")
+				s.Dur = s.N * rapid.Int64Range(1000, int64(3*time.Second)).Draw(t, "ageper")
 			}
 			c.Samples = append(c.Samples, s)
 		}
@@ -750,7 +763,7 @@ func runC20(ci interface{}) (r Result) {
 			return fail("format", err)
 		}
 		if t1.Sub(start) > time.Duration(maxDur) {
-			r.Inconclusive = true
+			r.Classes = append(r.Classes, "beyond-clock-range") // the clock moved the value out of the oracle's range: nothing to judge
 			return r
 		}
 		if err := checkClock(out, c.Style, t0.Sub(start), t1.Sub(start)); err != nil {
@@ -789,7 +802,7 @@ func runC20(ci interface{}) (r Result) {
 			hi = time.Duration(items * int64(math.Round(float64(t1.Sub(start))/float64(c.Current))))
 		}
 		if hi > time.Duration(maxDur) {
-			r.Inconclusive = true
+			r.Classes = append(r.Classes, "beyond-clock-range")
 			return r
 		}
 		if err := checkClock(out, c.Style, lo, hi); err != nil {
@@ -932,6 +945,9 @@ func runC20Ewma(c *c20Case, wc decor.WC, st decor.Statistics, call func(decor.De
 		r.Err, r.Kind = err, kind
 		return r
 	}
+	if c.AvgKind == "age" {
+		return runC20Age(c, wc, st, call)
+	}
 	rec := &recordAvg{}
 	var avg ewma.MovingAverage = rec
 	if c.AvgKind == "median" {
@@ -996,6 +1012,15 @@ func runC20Ewma(c *c20Case, wc decor.WC, st decor.Statistics, call func(decor.De
 		}
 		for _, s := range c.Samples {
 			ed.EwmaUpdate(s.N, time.Duration(s.Dur))
+			if c.Render {
+				// a frame drawn between two samples must not disturb the estimator
+				if _, err := call(d, st); err != nil {
+					return fail("format", err)
+				}
+			}
+		}
+		if c.Render {
+			r.Classes = append(r.Classes, "render-between-samples")
 		}
 	}
 	last3 := [3]float64{}
@@ -1063,6 +1088,83 @@ func runC20Ewma(c *c20Case, wc decor.WC, st decor.Statistics, call func(decor.De
 		r.Classes = append(r.Classes, "zero-then-progress")
 	}
 	r.Nontrivial = zeroThenProgress
+	return r
+}
+
+// runC20Age: decor.EwmaETA / decor.EwmaSpeed built from an age. Whatever the
+// weights, an exponentially weighted moving average of the per-item durations is
+// a convex combination of them: the printed ETA lies between remaining*min and
+// remaining*max of the per-item durations seen so far (or is zero while the
+// average warms up), the printed speed between 1/max and 1/min (or zero).
+func runC20Age(c *c20Case, wc decor.WC, st decor.Statistics, call func(decor.Decorator, decor.Statistics) (string, error)) (r Result) {
+	r.Classes = append(r.Classes, "kind:ewma", "ewma:"+c.Target, "avg:age", fmt.Sprintf("age:%g", c.Age))
+	fail := func(kind string, err error) Result {
+		r.Err, r.Kind = err, kind
+		return r
+	}
+	var base decor.Decorator
+	if c.Target == "eta" {
+		base = decor.EwmaETA(decor.TimeStyle(c.Style), c.Age, wc)
+	} else {
+		base = decor.EwmaSpeed(decor.SizeB1024(0), c.F.String(), c.Age, wc)
+	}
+	d := c20Wrap(base, c.Wrap)
+	ed, ok := unwrapAll(d).(decor.EwmaDecorator)
+	if !ok {
+		return fail("unwrap", fmt.Errorf("unwrapping %v does not lead to the moving-average decorator", c.Wrap))
+	}
+	lo, hi := math.Inf(1), 0.0
+	check := func(k int) error {
+		out, err := call(d, st)
+		if err != nil {
+			return err
+		}
+		if k == 0 {
+			lo, hi = 0, 0
+		}
+		if c.Target == "eta" {
+			rem := float64(c.Total - c.Current)
+			if rem*hi*1.000001 >= float64(maxDur) {
+				return nil
+			}
+			if err := checkClock(out, c.Style, 0, time.Duration(rem*hi*1.000001)+time.Second); err != nil {
+				return fmt.Errorf("ETA (age %g) after %d samples with %.0f..%.0f ns per item: %v", c.Age, k, lo, hi, err)
+			}
+			if got, perr := parseClock(out, c.Style); perr == nil && got != 0 && got < time.Duration(rem*lo*0.999999).Truncate(resolution(c.Style))-time.Second {
+				return fmt.Errorf("ETA (age %g) after %d samples with %.0f..%.0f ns per item and %d items left: %q is below every sample", c.Age, k, lo, hi, c.Total-c.Current, out)
+			}
+			return nil
+		}
+		splo, sphi := 0.0, 0.0
+		if hi > 0 {
+			sphi = 1e9 / lo * 1.000001
+			splo = 1e9 / hi * 0.999999
+		}
+		if err := checkSize(out, 1024, c.F, 0, sphi, true, true); err != nil {
+			return fmt.Errorf("speed (age %g) after %d samples with %.0f..%.0f ns per item: %v", c.Age, k, lo, hi, err)
+		}
+		_ = splo
+		return nil
+	}
+	for k, s := range c.Samples {
+		per := float64(s.Dur) / float64(s.N)
+		if per < lo {
+			lo = per
+		}
+		if per > hi {
+			hi = per
+		}
+		ed.EwmaUpdate(s.N, time.Duration(s.Dur))
+		if c.Render || k == len(c.Samples)-1 {
+			if err := check(k + 1); err != nil {
+				return fail("value", err)
+			}
+		}
+	}
+	r.Nontrivial = len(c.Samples) > 11
+	if r.Nontrivial {
+		r.Classes = append(r.Classes, "age:past-warm-up")
+	}
 	return r
 }
 
